@@ -2,14 +2,17 @@
    get_synced_state_dict on every rank = the rank's own metric merged with what the other ranks
    hold; nobody hangs.  With a world of one the toolkit is the identity.  Refuted configurations
    (the model is faithful to the code as it is): D10 (ndim mismatch -> collective mismatch), D9
-   (sub-group with an empty list state -> TypeError).
+   (sub-group with an empty list state -> TypeError), C02-state-dtype-follows-data (a state that is
+   float32 on one rank and float64 on another -> collective mismatch in EVERY variant: the per-name
+   equal-dtype hypothesis of the positive theorems is necessary, and Props/C02_schema.v shows that Max /
+   Min / MSE / R2Score / Covariance reach such configurations).
    Statements only; proofs live in Proofs/ToolkitP.v (generic over the metric objects: M, sd =
    state_dict after _prepare_for_merge_state, mrg = clone + merge_state, cmp = compute).
    [schema_agree fx g Wg mds order iv tl]: all ranks traverse the same keys and the sync of every
    key is ideal (SynclibP.ideal_family, established in C15 for tensor / object / list / dict states
    under the hypotheses stated there: ideal_family_instances). *)
 From Coq Require Import ZArith List Bool String Arith Lia.
-From TE Require Import Base.Val Models.Proto Models.Synclib Models.Toolkit
+From TE Require Import Base.Val Models.Proto Models.Synclib Models.Toolkit Models.SyncSchema
      Proofs.ProtoP Proofs.SynclibP Proofs.ToolkitP.
 Import ListNotations.
 Open Scope string_scope.
@@ -201,6 +204,37 @@ Theorem sync_refuted_ndim :
   = None.
 Proof. intros [a b c d] E. cbn in E. subst d. vm_compute. reflexivity. Qed.
 
+(* C02-state-dtype-follows-data: Max.max is the float32 default (-inf) on a rank that was never updated and
+   float64 on a rank updated with float64 data (Props/C02_schema.v reach_schema_refuted_dtype_max): the two
+   ranks issue all_gather with tensors of different dtype -> mismatch, in every variant (the ndim
+   negotiation of fx_d10 does not look at dtypes).  The checking transport reports CollectiveMismatch on
+   exactly this scenario (witness replay of vlib/parts/C02_sync.py). *)
+Definition scd (d : Z) (v : val) : tensor := mkT d [] (TSc v).
+Definition dtype_witness (i : nat) : tensor := nth i [scd 0 (VT "ninf" []); scd 1 (VZ 1)] (scd 0 (VZ 0)).
+Theorem sync_refuted_dtype :
+  forall fx : fixes,
+  run_all (respond [0;1])
+    (map (fun i => get_synced_metric mobj base mobj_mrg fx [0;1] 2 i 2
+                     (mkM [("max", STensor (dtype_witness i))] None)) (seq 0 2))
+  = None.
+Proof. intros [[] [] [] []]; vm_compute; reflexivity. Qed.
+(* the witness is a reachable configuration of the class model: rank 0 = Max() never updated, rank 1 = Max()
+   after one update with float64 data *)
+Example sync_refuted_dtype_reachable :
+  dt (dtype_witness 0) = dt_of "max" (s_run (ext_class "max") []) /\
+  dt (dtype_witness 1) = dt_of "max" (s_run (ext_class "max") [([1], 1%Z)]) /\
+  ndim (dtype_witness 0) = nd_of "max" (s_run (ext_class "max") []) /\
+  ndim (dtype_witness 1) = nd_of "max" (s_run (ext_class "max") [([1], 1%Z)]).
+Proof. repeat split. Qed.
+(* ... while two ranks that were both updated with float64 data sync (reach_schema_agree_same_dtype) *)
+Example sync_same_dtype_ok :
+  let st i := [("max", STensor (scd 1 (VZ (Z.of_nat i))))] in
+  run_all (respond [0;1])
+    (map (fun i => get_synced_metric mobj base mobj_mrg V_fixed [0;1] 2 i 2 (mkM (st i) None)) (seq 0 2))
+  = Some [Ok (mkM (st 0) (Some [[("max", GT (scd 1 (VZ 1)))]]));
+          Ok (mkM (st 1) (Some [[("max", GT (scd 1 (VZ 0)))]]))].
+Proof. vm_compute. reflexivity. Qed.
+
 (* D9: sub-group [1;2] of a world of 3, list state empty on the first member only: TypeError *)
 Theorem sync_refuted_subgroup_root :
   run_all (respond [1;2])
@@ -242,6 +276,7 @@ Print Assumptions sync_equals_local_merge_fixed_ndim.
 Print Assumptions sync_no_mismatch_fixed_ndim.
 Print Assumptions sync_and_compute_equals_local_merge.
 Print Assumptions sync_refuted_ndim.
+Print Assumptions sync_refuted_dtype.
 Print Assumptions sync_refuted_subgroup_root.
 Print Assumptions sync_subgroup_root_fixed.
 Print Assumptions sync_ndim_fixed.
